@@ -6,4 +6,4 @@ import (
 	"verif/internal/harness"
 )
 
-func TestProps(t *testing.T) { harness.Main(t, "C11", Total, Payload, AlgID, Conform, Concat) }
+func TestProps(t *testing.T) { harness.Main(t, "C11", Total, Payload, AlgID, History, Conform, Concat) }
